@@ -127,7 +127,13 @@ func (mv *MessageView) SnapshotRequest(req *http.Request) error {
 
 	mv.traileroffset = int64(buf.Len())
 
-	req.Body = ioutil.NopCloser(bytes.NewReader(data))
+	if len(data) == 0 {
+		// Keep an empty body recognisable as such: the transport frames a request with a
+		// non-nil body of unknown length as chunked.
+		req.Body = http.NoBody
+	} else {
+		req.Body = ioutil.NopCloser(bytes.NewReader(data))
+	}
 
 	if req.Trailer != nil {
 		req.Trailer.Write(buf)
